@@ -9,14 +9,15 @@ open SigModel.Promql
 /-- every series of the query satisfies the string guard -/
 def AllSafe (q : Query) (ss : List Series) : Prop := ∀ s ∈ ss, LabelSafe q.name s.labels
 
-/-- `count(m)` (no fields, no `without`) counts DISTINCT series ids: right when label sets are distinct -/
-def DistinctIds (q : Query) (ss : List Series) : Prop :=
-  q.fn = .count → q.fields = [] → q.without = false → (ss.map (·.labels)).Nodup
+/-- `count` with an empty field list is only right for `by ()` over distinct label sets: computeAggCount
+puts everything under `name{` (also for `without ()`) and counts distinct series ids -/
+def CountOK (q : Query) (ss : List Series) : Prop :=
+  q.fn = .count → q.fields = [] → (q.without = false ∧ (ss.map (·.labels)).Nodup)
 
 theorem spec_nofields_by (labels : Labels) : specGroupKey [] false labels = [] := by
   simp [specGroupKey]
 
-theorem members_eq_specMembers {q : Query} {ss : List Series} (hs : AllSafe q ss)
+theorem members_eq_specMembers {q : Query} {ss : List Series} (hs : AllSafe q ss) (hc : CountOK q ss)
     {s0 : Series} (h0 : s0 ∈ ss) (t : Nat) :
     members q ss (render q.without q.name (specGroupKey q.fields q.without s0.labels)) t
       = specMembers q ss (specGroupKey q.fields q.without s0.labels) t := by
@@ -26,8 +27,9 @@ theorem members_eq_specMembers {q : Query} {ss : List Series} (hs : AllSafe q ss
   congr 1
   have S := safe_of_labelSafe (hs s hsm)
   have S0 := safe_of_labelSafe (hs s0 h0)
-  by_cases hcnt : q.fn = .count ∧ q.fields = [] ∧ q.without = false
-  · simp only [groupOf, hcnt, and_self, if_true, spec_nofields_by]
+  by_cases hcnt : q.fn = .count ∧ q.fields = []
+  · obtain ⟨hw, _⟩ := hc hcnt.1 hcnt.2
+    simp only [groupOf, hcnt, and_self, if_true, hw, spec_nofields_by]
     simp [render, joinWith]
   · simp only [groupOf, hcnt, if_false, sidOf]
     rw [extract_eq_spec q.fields q.without S]
@@ -70,7 +72,7 @@ theorem aggAt_members (q : Query) (ss : List Series) (g : Str) (t : Nat) :
       let ms := members q ss g t
       if ms.isEmpty then none
       else some (match q.fn with
-        | .count => if q.fields = [] ∧ q.without = false then ((dedup (ms.map (sidOf q))).length : Rat) else (ms.length : Rat)
+        | .count => if q.fields = [] then ((dedup (ms.map (sidOf q))).length : Rat) else (ms.length : Rat)
         | fn => reduceRunning fn (ms.map (fun s => mkEntry q.fn q.step t s.pts))) := by
   unfold aggAt
   simp only [members_isEmpty]
@@ -86,12 +88,12 @@ theorem reduceRunning_spec (fn : Fn) (hfn : fn ≠ .count) (step t : Nat) (ms : 
   | min => simp [reduceRunning, mkEntry, dsFn, reduceVals, specValue, List.map_map, Function.comp_def]
   | max => simp [reduceRunning, mkEntry, dsFn, reduceVals, specValue, List.map_map, Function.comp_def]
 
-theorem aggAt_eq_specAt {q : Query} {ss : List Series} (hs : AllSafe q ss) (hc : DistinctIds q ss)
+theorem aggAt_eq_specAt {q : Query} {ss : List Series} (hs : AllSafe q ss) (hc : CountOK q ss)
     {s0 : Series} (h0 : s0 ∈ ss) (t : Nat) :
     aggAt q ss (render q.without q.name (specGroupKey q.fields q.without s0.labels)) t
       = specAt q ss (specGroupKey q.fields q.without s0.labels) t := by
   rw [aggAt_members]
-  simp only [members_eq_specMembers hs h0 t, specAt]
+  simp only [members_eq_specMembers hs hc h0 t, specAt]
   cases hemp : (specMembers q ss (specGroupKey q.fields q.without s0.labels) t).isEmpty with
   | true => simp
   | false =>
@@ -100,8 +102,8 @@ theorem aggAt_eq_specAt {q : Query} {ss : List Series} (hs : AllSafe q ss) (hc :
     cases hfn : q.fn with
     | count =>
       simp only [specValue]
-      by_cases hf : q.fields = [] ∧ q.without = false
-      · have hn := hc hfn hf.1 hf.2
+      by_cases hf : q.fields = []
+      · obtain ⟨_, hn⟩ := hc hfn hf
         have hsub : (specMembers q ss (specGroupKey q.fields q.without s0.labels) t).Sublist ss :=
           List.filter_sublist
         rw [if_pos hf, dedup_eq_self (sids_nodup hs hsub hn)]
@@ -158,7 +160,7 @@ theorem mem_results_iff {q : Query} {ss : List Series} {g : Str} {t : Nat} {v : 
     exact ⟨(g, t), aggAt_some_mem_keys h, by simp [h]⟩
 
 /-- every key of the result is the rendering of the PromQL key of one of the series -/
-theorem keys_are_spec {q : Query} {ss : List Series} (hs : AllSafe q ss)
+theorem keys_are_spec {q : Query} {ss : List Series} (hs : AllSafe q ss) (hc : CountOK q ss)
     {g : Str} {t : Nat} (h : (g, t) ∈ keys q ss) :
     ∃ s ∈ ss, g = render q.without q.name (specGroupKey q.fields q.without s.labels) := by
   unfold keys at h
@@ -171,8 +173,9 @@ theorem keys_are_spec {q : Query} {ss : List Series} (hs : AllSafe q ss)
     have := congrArg Prod.fst he; simpa using this.symm
   rw [hg]
   have S := safe_of_labelSafe (hs s hss)
-  by_cases hcnt : q.fn = .count ∧ q.fields = [] ∧ q.without = false
-  · simp only [groupOf, hcnt, and_self, if_true, spec_nofields_by]
+  by_cases hcnt : q.fn = .count ∧ q.fields = []
+  · obtain ⟨hw, _⟩ := hc hcnt.1 hcnt.2
+    simp only [groupOf, hcnt, and_self, if_true, hw, spec_nofields_by]
     simp [render, joinWith]
   · simp only [groupOf, hcnt, if_false, sidOf]
     exact extract_eq_spec q.fields q.without S
